@@ -68,9 +68,10 @@ def add_login(registry: kopf.OperatorRegistry, world: World, env: Env | None = N
 class Outcome:
     """One step of a handler's outcome script."""
     def __init__(self, kind: str, delay: float | None = None, result: Any = None, sleep: float = 0.0,
-                 patch: dict | None = None, edit: dict | None = None) -> None:
+                 patch: dict | None = None, edit: dict | None = None, addfin: str | None = None) -> None:
         self.kind, self.delay, self.result, self.sleep, self.patch = kind, delay, result, sleep, patch
         self.edit = edit   # a foreign write to the same object made while the handler runs
+        self.addfin = addfin   # a user transformation (patch.fns, docs/patches.rst): add this finalizer if it is not there
 
     def __repr__(self) -> str:
         extras = ''.join(f',{k}={v!r}' for k, v in (('delay', self.delay), ('sleep', self.sleep)) if v)
@@ -157,6 +158,9 @@ def scripted(env: Env, hid: str, script: list[Outcome], *, cursor: str | None = 
                                 actor='foreign')
             if out.patch and 'patch' in kw:
                 _deep_update(kw['patch'], out.patch)
+            if out.addfin and 'patch' in kw:
+                import functools
+                kw['patch'].fns.append(functools.partial(_add_finalizer, name=out.addfin))
             if out.kind == 'ok':
                 return out.result
             if out.kind == 'temp':
@@ -235,6 +239,12 @@ def daemon_fn(env: Env, hid: str, reaction: str = 'obeys', lifetime: float | Non
             env.log('daemon-exit', id=hid, uid=uid, name=name, op=op, inst=inst, how=how)
     fn.__name__ = fn.__qualname__ = hid
     return fn
+
+
+def _add_finalizer(body: Any, /, name: str) -> None:
+    fins = body.setdefault('metadata', {}).setdefault('finalizers', [])
+    if name not in fins:
+        fins.append(name)
 
 
 def _deep_update(dst: Any, src: dict) -> None:
